@@ -363,6 +363,65 @@ func TestVerifC13Decode(t *testing.T) {
 		}
 	}
 
+	// ---- stream 1b: a key that differs from a field's key only by letter case is unknown too ---------
+	for _, ep := range all {
+		for _, pt := range ep.pts {
+			if pt.foreign || len(pt.d.Fields) == 0 {
+				continue
+			}
+			var keys []string
+			var collect func(d *sDesc)
+			collect = func(d *sDesc) {
+				for _, f := range d.Fields {
+					if f.Squash {
+						if f.T.Kind == "struct" {
+							collect(f.T)
+						}
+					} else {
+						keys = append(keys, f.Key)
+					}
+				}
+			}
+			collect(pt.d)
+			var variant string
+			for _, k := range keys {
+				if u := strings.ToUpper(k[:1]) + k[1:]; u != k {
+					variant = u
+					break
+				}
+			}
+			if variant == "" || r.Intn(2) == 0 {
+				continue
+			}
+			val := dBuild(pt.steps, map[string]any{variant: nil})
+			doc := dDoc(ep.e, val)
+			_, err := dLoad(doc)
+			js, _ := json.Marshal(doc)
+			term := "(CDec true " + vStr(ep.e.Name) + " (" + dCv(val) + ") "
+			if err == nil {
+				out.Oracle("unknown-key-accepted", term+"[])", "a key differing only by letter case from a real key is accepted: "+string(js))
+				out.Case(true, term+"[])")
+				continue
+			}
+			if strings.HasPrefix(err.Error(), "PANIC") {
+				continue
+			}
+			var obs []string
+			okp := true
+			for _, rp := range dParse(err) {
+				rel, ok := dStrip(ep.e, rp.path)
+				okp = okp && ok
+				for _, k := range rp.keys {
+					obs = append(obs, vPair(dStrs(rel), vStr(k)))
+				}
+			}
+			if okp {
+				out.Case(true, term+vList(obs)+")")
+				out.Stat("decode.casevariant", 1)
+			}
+		}
+	}
+
 	// ---- stream 2: random multi-insertion (keys only) -----------------------------------------------
 	for i, total := 0, vBudget(60, 10); i < total; i++ {
 		ep := all[r.Intn(len(all))]
